@@ -1,9 +1,78 @@
-"""Threaded part of C04 (filled in once the scheduler engine exists)."""
+"""Threaded part of C04: worker-thread programs under every interleaving up to the preemption bound on the real recorder."""
+from __future__ import annotations
+
+from mc import progs as P, sched as S, threads as T
+from mc.core import HarnessError, viol
+
+A1 = {'fn': 'in_a', 'a': ['x1'], 'ret': 'vlst'}
+B2 = {'fn': 'in_b', 'a': ['x2'], 'ret': 'vdct'}
+O1 = {'fn': 'out_a', 'a': ['x1'], 'ret': 'vtup'}
+OB = {'fn': 'out_b', 'a': ['x1'], 'ret': 'v1'}
+SHAPES = {
+    'T1': [[A1], [B2]],
+    'T2': [[dict(A1, fault='key')], [B2]],
+    'T3': [[O1], [{'fn': 'in_hdl', 'a': ['x2'], 'ret': 'vs', 'fault': 'handler'}]],
+    'T4': [[A1, O1], [dict(B2, pre=[{'do': 'discard'}])]],
+    'T5': [[dict(A1, pre=[{'do': 'force'}])], [dict(B2, fault='key')]],
+    'T6': [[{'fn': 'out_hdl', 'a': ['x1'], 'ret': 'v0', 'fault': 'handler'}], [OB]],
+    'T7': [[dict(A1, fault='key')], [dict(B2, fault='key')]],
+    'T8': [[dict(A1, exc='E1')], [dict(B2, pre=[{'do': 'discard'}])]],
+    'T9': [[O1, O1], [dict(B2, fault='key'), OB]],
+}
+QUICK = ['T1', 'T2', 'T3', 'T4', 'T5', 'T7', 'T8']
 
 
 def gen_cases(tier, seed):
-    return []
+    # quick: all shapes at opcode granularity with bound 1 and at line granularity with bound 2; thorough: + copy-on, opcode granularity at bound 2
+    for n in SHAPES:
+        yield {'engine': 'sched', 'shape': n, 'copy': False, 'bound': 1, 'fine': True, 'shard': [0, 1]}
+        if True:
+            for sh in range(8):
+                yield {'engine': 'sched', 'shape': n, 'copy': False, 'bound': 2, 'fine': False, 'shard': [sh, 8]}
+        if tier == 'thorough':
+            yield {'engine': 'sched', 'shape': n, 'copy': True, 'bound': 1, 'fine': True, 'shard': [0, 1]}
+            for sh in range(16):
+                yield {'engine': 'sched', 'shape': n, 'copy': False, 'bound': 2, 'fine': True, 'shard': [sh, 16]}
+
+
+def prog_of(case):
+    p = {'steps': [{'do': 'par', 'threads': SHAPES[case['shape']]}, {'fn': 'out_b', 'a': ['xs'], 'ret': 'v1'}]}
+    if case['copy']:
+        p['params'] = {'copy': True}
+    return p
 
 
 def run_case(case):
-    raise NotImplementedError
+    from mc.checks import c04
+    prog = prog_of(case)
+
+    def run_one(prefix):
+        return T.record_under(prog, prefix, fine=case['fine'])
+    ex = S.explore(run_one, case['bound'], max_execs=60000, shard=tuple(case['shard']))
+    viols = []
+    outcomes = set()
+    for choices, res in ex['results']:
+        if not res['ok'] or res['r'] is None:
+            v = viol('liveness:%s' % ('deadlock' if res['deadlock'] else 'step-horizon'), 'threaded operation did not terminate', 'terminates', res['thread_errors'])
+            vs = [v]
+        else:
+            P.RT.spawn = lambda fns: [f() for f in fns]   # the undecorated twin runs its workers one after the other
+            j = c04.judge({'mods': [1], 'glob': 'threads'}, prog, res['r'], res['end'], {})
+            vs = j['viol']
+            if res['thread_errors']:
+                vs.append(viol('harness-thread-died', 'a harness thread died', [], res['thread_errors']))
+            outcomes.add(j['obs'])
+        for v in vs:
+            if not any(x['sig'] == v['sig'] for x in viols):
+                v['schedule'] = choices
+                viols.append(v)
+    if viols:
+        s2, res2 = T.record_under(prog, viols[0]['schedule'], fine=case['fine'])
+        P.RT.spawn = lambda fns: [f() for f in fns]
+        again = c04.judge({'mods': [1], 'glob': 'threads'}, prog, res2['r'], res2['end'], {})['viol'] if res2['r'] is not None else []
+        if res2['ok'] and viols[0]['sig'] not in [v['sig'] for v in again]:
+            raise HarnessError('schedule did not reproduce its violation: nondeterminism not owned')
+    return dict(viol=viols, obs=repr(sorted(outcomes))[:2000], states=list(outcomes), nontrivial=ex['executions'] > 1, ntkey=repr(case),
+                evals=ex['executions'], transitions=ex['executions'] * max(1, ex['max_points']),
+                caps=['execution cap hit for %s' % case] if ex['capped'] else [],
+                extra={'threaded_schedules': ex['executions'], 'threaded_max_points': ex['max_points']})
